@@ -64,6 +64,12 @@ func newCfgWorld() *cfgWorld {
 		os.MkdirAll(d, 0o755)
 		os.WriteFile(filepath.Join(d, m), []byte(m), 0o644)
 	}
+	// directories named like the commands in the working directory: they must never be taken for a
+	// dropped root directory ("ps3netsrv-go <dir>" shortcut)
+	for _, cmdName := range []string{"server", "decrypt", "make-iso"} {
+		os.MkdirAll(filepath.Join(w.dirC, cmdName), 0o755)
+		os.WriteFile(filepath.Join(w.dirC, cmdName, "markerS"), []byte("markerS"), 0o644)
+	}
 	os.MkdirAll(filepath.Join(base, "xdg", "ps3netsrv-go"), 0o755)
 	w.portA, w.portB, w.portD = freePort(), freePort(), freePort()
 	return w
@@ -72,6 +78,9 @@ func newCfgWorld() *cfgWorld {
 func (w *cfgWorld) value(setting, tag string) string {
 	if tag == "E" {
 		return ""
+	}
+	if tag == "N" { // well-formed but negative: must not silently mean "no timeout"
+		return "-1s"
 	}
 	switch setting {
 	case "root":
@@ -226,7 +235,7 @@ func (w *cfgWorld) runCfg(assigns []cfgAssign) string {
 			return b[0] != 0xff
 		}
 		obs["root"] = "?"
-		for _, m := range []string{"A", "B", "C"} {
+		for _, m := range []string{"A", "B", "C", "S"} {
 			if statOf("/marker" + m) {
 				obs["root"] = m
 			}
@@ -322,6 +331,11 @@ func c19Stream(o *out, r *rng, thorough bool) {
 		if s == "client-whitelist" || s == "max-clients" || s == "root" || s == "read-timeout" {
 			for _, ch := range channels {
 				runs = append(runs, append(base(s), cfgAssign{s, ch, "X"}))
+			}
+		}
+		if s == "read-timeout" {
+			for _, ch := range channels {
+				runs = append(runs, append(base(s), cfgAssign{s, ch, "N"}))
 			}
 		}
 		// a blank value is malformed too (tag E): it must not be taken for "not given"
